@@ -33,7 +33,7 @@ vlib.standard_check({
     "harness": "c06",
     # harness args after the seed: ncases maxSteps [classMask]
     "streams": {"quick": [[6000, 8], [3000, 16], [1000, 28]],
-                "thorough": [[120000, 8], [80000, 16], [40000, 28]]},
+                "thorough": [[200000, 8], [120000, 16], [60000, 28]]},
     "search": [[20000, 10], [10000, 24]],
     "signature": signature,
     "eval_key": "ops",
